@@ -9,7 +9,7 @@ CONSTANTS
   MaxLoops = 1
   MaxPrints = 1
   MaxAuth = 1
-  Depth = 7
+  Depth = 6
 CONSTRAINT Canon
 INVARIANT Emit
 CHECK_DEADLOCK FALSE
